@@ -42,11 +42,13 @@ INT_TYS = {"u8", "u16", "u32", "u64", "usize", "u128", "i8", "i16", "i32", "i64"
 
 def split_top(s):
     out, depth, cur = [], 0, []
+    prev = ""
     for ch in s:
         if ch in "<([{":
             depth += 1
-        elif ch in ">)]}":
+        elif ch in ">)]}" and not (ch == ">" and prev == "-"):
             depth -= 1
+        prev = ch
         if ch == "," and depth == 0:
             out.append("".join(cur).strip())
             cur = []
@@ -61,7 +63,7 @@ def parse_ctor(ty):
     """'std::iter::Map<A, B>' -> ('std::iter::Map', [A, B])"""
     ty = ty.strip()
     i = ty.find("<")
-    if i < 0 or not ty.endswith(">"):
+    if i < 0 or not ty.endswith(">") or ty.endswith("->"):
         return ty, []
     return ty[:i], [a for a in split_top(ty[i + 1:-1]) if not a.startswith("'")]
 
@@ -73,6 +75,8 @@ def finite_iterator(ty):
     parts = ctor.split("::")
     name = parts[-1]
     mod = parts[-2] if len(parts) >= 2 else ""
+    if ctor in ("mio::event::Iter", "mio::event::events::Iter"):
+        return True, "finite"          # iterates the fixed-capacity Events buffer filled by one poll()
     if parts[0] not in ("std", "core", "alloc"):
         return False, "iterator type %s is not a std type" % ctor
     if mod == "iter" or mod == "adapters":
@@ -203,6 +207,10 @@ def _int_keys(st):
     return {k: v[1] for k, v in st.env.items() if isinstance(v, tuple) and v and v[0] == "int" and isinstance(v[1], Lin)}
 
 
+def _len_keys(st):
+    return {k: v[1] for k, v in st.env.items() if isinstance(v, tuple) and v and v[0] == "seq" and isinstance(v[1], Lin) and not v[1].is_const()}
+
+
 def ranking_verdict(A, fn, frame, head, loops):
     """lexicographic ranking from one region pass; returns (ok, detail)"""
     ls = A.loop_states.get((fn.name, frame))
@@ -215,7 +223,7 @@ def ranking_verdict(A, fn, frame, head, loops):
     body = loops[head]
     A.stack.append(fn.short)
     pinned = set()
-    for H in _int_keys(st_head).values():
+    for H in list(_int_keys(st_head).values()) + list(_len_keys(st_head).values()):
         pinned.update(H.syms())
     A.pinned = pinned
     try:
@@ -230,9 +238,19 @@ def ranking_verdict(A, fn, frame, head, loops):
     # candidate components
     rows = []       # per back state: dict comp -> ('strict'|'weak'|None)
     comps = set()
+    Ls = _len_keys(st_head)
     for (src, s) in back:
         Vs = _int_keys(s)
+        VLs = _len_keys(s)
         row = {}
+        # a shrinking sequence on its own: len strictly decreases
+        for lk, HL in Ls.items():
+            VL = VLs.get(lk)
+            if VL is not None:
+                if s.store.entails(VL.sub(HL).addc(1)):
+                    row[("shrink", lk)] = "strict"
+                elif s.store.entails(VL.sub(HL)):
+                    row[("shrink", lk)] = "weak"
         for k, H in Hs.items():
             V = Vs.get(k)
             if V is None:
@@ -245,6 +263,19 @@ def ranking_verdict(A, fn, frame, head, loops):
                     row[("dec", k)] = "strict"
                 elif s.store.entails(d):
                     row[("dec", k)] = "weak"
+            # distance to a sequence length that may itself shrink: f = len - v, with f >= 1 whenever the body
+            # runs (the loop guard) and f decreasing by at least one
+            for lk, HL in Ls.items():
+                VL = VLs.get(lk)
+                if VL is None:
+                    continue
+                fH = HL.sub(H)
+                fV = VL.sub(V)
+                if s.store.entails(Lin.const(1).sub(fH)):
+                    if s.store.entails(fV.sub(fH).addc(1)):
+                        row[("dist", k, lk)] = "strict"
+                    elif s.store.entails(fV.sub(fH)):
+                        row[("dist", k, lk)] = "weak"
             # increasing under a loop-invariant upper bound
             if s.store.entails(d.scale(-1)):
                 strict = s.store.entails(d.scale(-1).addc(1))
@@ -280,6 +311,10 @@ def ranking_verdict(A, fn, frame, head, loops):
     for c in order:
         if c[0] == "dec":
             desc.append("%s strictly decreases (unsigned)" % key_str(c[1]))
+        elif c[0] == "dist":
+            desc.append("len(%s) - %s strictly decreases and is >= 1 whenever the body runs" % (key_str(c[2]), key_str(c[1])))
+        elif c[0] == "shrink":
+            desc.append("len(%s) strictly decreases" % key_str(c[1]))
         else:
             desc.append("%s strictly increases, bounded by %s" % (key_str(c[1]), c[2]))
     return True, "lexicographic ranking over %d back-edge paths: %s" % (len(back), " ; then ".join(desc))
